@@ -523,7 +523,10 @@ class _DataCompiler:
                 parent_files + [file_name], include_files
             )
         if following_data:
-            data_list += [(following_data, file_version)]
+            # The data following the include block must not use the same
+            # version string as the data preceding it. Otherwise, different
+            # sequences of data items could share one list of versions.
+            data_list += [(following_data, file_version + "+")]
         return data_list
 
     @staticmethod
